@@ -1,6 +1,315 @@
-import DdsModel.Drv.Util
+import DdsModel.Reader
+import DdsModel.Drv.C09
+namespace Dds.Drv.C01
+open Dds Dds.Stream Dds.Reader Dds.Drv.C09
+
+/-! Driver of the C01 correspondence stream; case syntax: harness/src/c01.rs. -/
+
+def CAP : Nat := 16 * 1024 * 1024
+def BIGPOS : Nat := 9223372036854775808
+def MAX_A : Nat := 64
+
+def hexDigit (c : Char) : Option Nat :=
+  if '0' ≤ c ∧ c ≤ '9' then some (c.toNat - '0'.toNat)
+  else if 'a' ≤ c ∧ c ≤ 'f' then some (c.toNat - 'a'.toNat + 10)
+  else if 'A' ≤ c ∧ c ≤ 'F' then some (c.toNat - 'A'.toNat + 10)
+  else none
+
+def hexNat (s : String) : Option Nat :=
+  s.toList.foldlM (fun acc c => (hexDigit c).map (acc * 16 + ·)) 0
+
+def hexBytes : List Char → Option (List Nat)
+  | [] => some []
+  | a :: b :: rest => do
+    let x ← hexDigit a
+    let y ← hexDigit b
+    let r ← hexBytes rest
+    some ((x * 16 + y) :: r)
+  | _ => none
+
+def wordBytes (w : Nat) : List Nat := [w % 256, w / 256 % 256, w / 65536 % 256, w / 16777216 % 256]
+
+def parsePrefix (s : String) : Option (List Nat) :=
+  if s == "-" then some [] else
+  (s.splitOn ",").foldlM (fun acc it =>
+    match it.toList with
+    | 'z' :: n => do
+      let n ← (String.ofList n).toNat?
+      if n > 4096 then none else some (acc ++ List.replicate (4 * n) 0)
+    | 'x' :: h => do some (acc ++ (← hexBytes h))
+    | cs =>
+      if cs.isEmpty ∨ cs.length > 8 then none else do
+      let w ← hexNat it
+      some (acc ++ wordBytes w)) []
+
+/-- the pseudo random data bytes of the harness (xorshift64*), first `n` bytes -/
+def dataHead (seed : Nat) (n : Nat) : List Nat :=
+  let x0 : UInt64 := (UInt64.ofNat seed * 0x9E3779B97F4A7C15) ||| 1
+  let rec go (fuel : Nat) (x : UInt64) (acc : List Nat) : List Nat :=
+    match fuel with
+    | 0 => acc
+    | fuel + 1 =>
+      let x := x ^^^ (x >>> 12)
+      let x := x ^^^ (x <<< 25)
+      let x := x ^^^ (x >>> 27)
+      let y := (x * 0x2545F4914F6CDD1D).toNat
+      go fuel x (acc ++ (List.range 8).map fun i => y / 256 ^ i % 256)
+  (go ((n + 7) / 8) x0 []).take n
+
+structure EnvSpec where
+  hard : Option Nat := none
+  eof : Option Nat := none
+  /-- one `Ok(0)` at this offset (transient) -/
+  once : Option Nat := none
+  clamp : Bool := false
+
+def parseEnv (s : String) : Option EnvSpec :=
+  match s.splitOn "," with
+  | [] => none
+  | m :: flags => do
+    let base : EnvSpec ←
+      if m == "n" then some {} else
+      match m.toList with
+      | 'h' :: k => do some { hard := some (← (String.ofList k).toNat?) }
+      | 'e' :: k => do some { eof := some (← (String.ofList k).toNat?) }
+      | 'i' :: k => do let _ ← (String.ofList k).toNat?; some {}
+      | 't' :: k => do some { once := some (← (String.ofList k).toNat?) }
+      | _ => none
+    flags.foldlM (fun e f =>
+      if f == "c" then some { e with clamp := true }
+      else match f.toList with
+        | 'b' :: n => do let _ ← (String.ofList n).toNat?; some e
+        | _ => none) base
+
+inductive POp where
+  | layout
+  | limit (l : Nat)
+  | read (c : Nat) (size : Option (Nat × Nat))
+  | rect (c ox oy w h : Nat)
+  | skip | skipMips
+  | cube (c : Nat) (size : Option (Nat × Nat))
+  | all (c : Nat)
+  | rewPrev | rewStart
+
+def colour? (s : String) : Option Nat := do
+  let c ← s.toNat?
+  if c < 12 then some c else none
+
+def u32? (s : String) : Option Nat := do
+  let n ← s.toNat?
+  if n < U32 then some n else none
+
+def usize? (s : String) : Option Nat := do
+  let n ← s.toNat?
+  if n < U64 then some n else none
+
+def parseOp (s : String) : Option POp :=
+  match s.toList with
+  | [] => none
+  | k :: restC =>
+    let rest := String.ofList restC
+    let parts := rest.splitOn ":"
+    match k with
+    | 'L' => if rest.isEmpty then some .layout else none
+    | 'm' => do some (.limit (← usize? rest))
+    | 'r' =>
+      match parts with
+      | [c] =>
+        if c.endsWith "p" then do some (.read (← colour? (c.dropEnd 1).toString) none)
+        else do some (.read (← colour? c) none)
+      | [c, w, h] => do some (.read (← colour? c) (some (← u32? w, ← u32? h)))
+      | _ => none
+    | 'q' =>
+      match parts with
+      | [c, ox, oy, w, h] => do some (.rect (← colour? c) (← u32? ox) (← u32? oy) (← u32? w) (← u32? h))
+      | _ => none
+    | 's' => if rest.isEmpty then some .skip else none
+    | 'k' => if rest.isEmpty then some .skipMips else none
+    | 'c' =>
+      match parts with
+      | [c] => do some (.cube (← colour? c) none)
+      | [c, w, h] => do some (.cube (← colour? c) (some (← u32? w, ← u32? h)))
+      | _ => none
+    | 'A' => do some (.all (← colour? rest))
+    | 'p' => if rest.isEmpty then some .rewPrev else none
+    | 'z' => if rest.isEmpty then some .rewStart else none
+    | _ => none
+
+def colourOf (c : Nat) : Colour := (c % 4, c / 4)
+def bpp (c : Nat) : Nat := colourBytes (colourOf c)
+
+def opOk : POp → Bool
+  | .read c (some (w, h)) => w * h * bpp c ≤ CAP
+  | .rect c _ _ w h => w * h * bpp c ≤ CAP
+  | .cube c (some (w, h)) => w * h * bpp c ≤ CAP
+  | _ => true
+
+def rName : R → String
+  | .ok => "ok"
+  | .io => "Io"
+  | .noMoreSurfaces => "NoMoreSurfaces"
+  | .unexpectedSurfaceSize => "UnexpectedSurfaceSize"
+  | .rectOutOfBounds => "RectOutOfBounds"
+  | .cannotSkipMipmapsInVolume => "CannotSkipMipmapsInVolume"
+  | .notACubeMap => "NotACubeMap"
+  | .memoryLimitExceeded => "MemoryLimitExceeded"
+  | .panic => "panic"
+
+def fmtL (L : DataLayout) : String :=
+  let len := match L.dataLenP with | some l => toString l | none => "panic"
+  match L with
+  | .texture t => s!"T:{t.w}x{t.h}:{t.mips}:{len}"
+  | .volume v => s!"V:{v.w}x{v.h}x{v.d}:{v.mips}:{len}"
+  | .textureArray a =>
+    let k := match a.kind with
+      | .textures => "T" | .cubeMaps => "C" | .partialCubeMap f => s!"P{f}"
+    s!"A{k}:{a.arrayLen}:{a.w}x{a.h}:{a.mips}:{len}"
+
+def fmtErrName : C19.FmtErr → String
+  | .dxgi => "UnsupportedDxgiFormat"
+  | .fourCC => "UnsupportedFourCC"
+  | .mask => "UnsupportedPixelFormat"
+
+/-- where the reader stands after `Header::read` (successful or not) -/
+def hdrEnd (skipMagic : Bool) (bytes : List Nat) (avail : Nat) : Nat :=
+  let ws := leWords (bytes.take avail)
+  let afterMagic : Option (Nat × List Nat) :=
+    if skipMagic then some (0, ws) else
+    match ws with
+    | [] => none
+    | m :: rest => if m = MAGIC_WORD then some (4, rest) else none
+  match afterMagic with
+  | none => if skipMagic then avail else (if avail < 4 then avail else 4)
+  | some (off, body) =>
+    if avail < off + 124 then avail else
+    let pf : RawPixelFormat := ⟨0, body.getD 19 0, body.getD 20 0, 0, 0, 0, 0, 0⟩
+    if pf.saysDx10 then (if avail < off + 144 then avail else off + 144) else off + 124
+
+def autoSize (s : RS) (c : Nat) : Nat × Nat :=
+  match s.iter.currentP with
+  | some (some cur) => if cur.w * cur.h * bpp c ≤ CAP then (cur.w, cur.h) else (1, 1)
+  | _ => (1, 1)
+
+def isDone (s : RS) : Bool :=
+  match s.iter.currentP with
+  | some none => true
+  | _ => false
+
+def mainSize : DataLayout → Nat × Nat
+  | .texture t => (t.w, t.h)
+  | .volume v => (v.w, v.h)
+  | .textureArray a => (a.w, a.h)
+
+def readAll (k : Cfg) (c : Nat) : Nat → RS → Nat → RS × Nat × String
+  | 0, s, n => (s, n, "ok")
+  | fuel + 1, s, n =>
+    if isDone s ∨ s.pos ≥ BIGPOS then (s, n, "ok") else
+    let (w, h) := autoSize s c
+    let (s', r) := step k s (.read w h (colourOf c))
+    if r = .ok then readAll k c fuel s' (n + 1) else (s', n, rName r)
+
+def fmtCur (s : RS) : String :=
+  match s.iter.currentP with
+  | none => "panic"
+  | some none => "done"
+  | some (some cur) => s!"{cur.w},{cur.h},{cur.len},{if cur.level ≠ 0 then 1 else 0}"
+
+/-- `kA`: the stream with the transient end of file still pending, `kB`: after it was consumed
+(a failed read consumes it; such cases contain full reads only) -/
+def runOpsD (kA kB : Cfg) (hdr : Option Header) (small : Bool) :
+    List POp → Bool → RS → List String → RS × List String
+  | [], _, s, acc => (s, acc.reverse)
+  | op :: rest, fired, s, acc =>
+    let k := if fired then kB else kA
+    match op with
+    | .layout =>
+      let t := match hdr with | some h => s!"L={fmtLayout h}" | none => "L=-"
+      runOpsD kA kB hdr small rest fired s (t :: acc)
+    | op =>
+      if s.pos ≥ BIGPOS then (s, ("stop-bigpos" :: acc).reverse) else
+      let (s', t) : RS × String := match op with
+        | .layout => (s, "")
+        | .limit l => ({ s with limit := l }, "m")
+        | .read c size =>
+          let (w, h) := match size with | some x => x | none => autoSize s c
+          let (s', r) := step k s (.read w h (colourOf c)); (s', rName r)
+        | .all c => let (s', n, last) := readAll k c MAX_A s 0; (s', s!"{n}:{last}")
+        | .rect c ox oy w h => let (s', r) := step k s (.rect ox oy w h (colourOf c)); (s', rName r)
+        | .skip => let (s', r) := step k s .skipSurface; (s', rName r)
+        | .skipMips => let (s', r) := step k s .skipMipmaps; (s', rName r)
+        | .cube c size =>
+          let (w, h) := match size with
+            | some x => x
+            | none =>
+              let (mw, mh) := mainSize k.layout
+              if mw * 4 < U32 ∧ mh * 3 < U32 ∧ mw * 4 * (mh * 3) * bpp c ≤ CAP then (mw * 4, mh * 3) else (1, 1)
+          let (s', r) := step k s (.cube w h (colourOf c)); (s', rName r)
+        | .rewPrev => if small then let (s', r) := step k s .rewindPrev; (s', rName r) else (s, "skip")
+        | .rewStart => if small then let (s', r) := step k s .rewindStart; (s', rName r) else (s, "skip")
+      runOpsD kA kB hdr small rest (fired || t == "Io" || t.endsWith ":Io") s' (s!"{t}@{s'.pos}" :: acc)
+
+def runX (t : List String) : String :=
+  match t with
+  | o :: fl :: envS :: preS :: dataS :: opsS =>
+    match parseOpts o fl, parseEnv envS, parsePrefix preS, opsS.mapM parseOp with
+    | some opts, some env, some pre, some ops =>
+      let data? : Option (Nat × Nat) :=
+        if dataS == "-" then some (0, 0) else
+        match dataS.splitOn ":" with
+        | [l, s] => do
+          let l ← l.toNat?
+          let s ← s.toNat?
+          if l > CAP * 4 ∨ s ≥ U64 then none else some (l, s)
+        | _ => none
+      match data? with
+      | none => "bad-case"
+      | some (dlen, seed) =>
+        if !ops.all opOk then "bad-case" else
+        if env.once.isSome ∧ !ops.all (fun o => match o with
+            | .layout | .limit _ | .read _ _ | .all _ => true | _ => false) then "bad-case" else
+        let fileLen := pre.length + dlen
+        let head := pre ++ dataHead seed (min dlen 192)
+        let lim0 := match env.hard with | some k => min fileLen k | none => fileLen
+        let avail1 := match env.eof with | some k => min lim0 k | none => lim0
+        let avail := match env.once with | some k => min avail1 k | none => avail1
+        let hbytes := head.take avail
+        let hpos := hdrEnd opts.skipMagicBytes head avail
+        let e : Env := { len := fileLen, fault := env.hard, clampSeek := env.clamp, eofOnce := env.eof }
+        match Header.read pixelInfoOf opts (leWords hbytes) with
+        | .error er =>
+          let opsOut := ops.map fun op => match op with | .layout => "L=-" | _ => "-"
+          joinSp ([s!"hdr={fmtErr er}@{hpos}", "|"] ++ opsOut ++ ["|", "cur=-"])
+        | .ok (h, _) =>
+          let hd := s!"hdr={fmtHeader h}@{hpos}"
+          match C19.formatOfHeader (hdrOf h) with
+          | .error fe =>
+            let opsOut := ops.map fun op => match op with | .layout => s!"L={fmtLayout h}" | _ => "-"
+            joinSp ([hd, s!"fmt=err:{fmtErrName fe}", "|"] ++ opsOut ++ ["|", "cur=-"])
+          | .ok f =>
+            match openBytes opts hbytes with
+            | .error (.layout le) =>
+              let opsOut := ops.map fun op => match op with | .layout => s!"L={fmtLayout h}" | _ => "-"
+              joinSp ([hd, s!"fmt={f.name} lay=err:{errName le}", "|"] ++ opsOut ++ ["|", "cur=-"])
+            | .error _ => "panic"
+            | .ok od =>
+              let kB : Cfg := { env := e, fam := od.fam, layout := od.layout }
+              let kA : Cfg := match env.once with
+                | some z => { kB with env := { e with eofOnce := some z } }
+                | none => kB
+              let small := match od.layout.dataLenP with | some l => decide (l ≤ I64MAX) | none => false
+              let s0 : RS := { iter := SurfIter.new od.layout, pos := hpos, limit := DEFAULT_MEMORY_LIMIT }
+              let (s1, outs) := runOpsD kA kB (some h) small ops false s0 []
+              joinSp ([hd, s!"fmt={f.name} lay={fmtL od.layout}", "|"] ++ outs ++ ["|", s!"cur={fmtCur s1}"])
+    | _, _, _, _ => "bad-case"
+  | _ => "bad-case"
+
+def runC01 (line : String) : String :=
+  match toks line with
+  | "X" :: t => runX t
+  | _ => "bad-case"
+
+end Dds.Drv.C01
+
 namespace Dds.Drv
-
-def runC01 (_line : String) : String := "not-modelled"
-
+def runC01 : String → String := C01.runC01
 end Dds.Drv
